@@ -1537,7 +1537,7 @@ def mutated_files_history(seed, rounds=5):
             elif m < 0.93: h.op(f"fsmut remove {target}")
             else: h.op(f"fsmut truncate {target} {rng.randrange(0, 120)}")
         h.op("dumpdir")
-        h.op("init"); h.op("slots")
+        h.op(rng.choice(["init", "initix"])); h.op("slots")
         s = h.op(f"open t:{hx(t.label)} 6")
         h.op(f"login @{s} 1 {hx(t.user)}")
         h.op(f"findinit @{s}")
@@ -1562,7 +1562,7 @@ def mutated_files_history(seed, rounds=5):
         if rng.random() < 0.5: h.op(f"create @{s} 0={U(0)} 1=01 2={rng.choice(['00', '01'])} 3={hx(h.new_label())} 11={rb(10)}")
         if rng.random() < 0.2: h.op(f"setpin @{s} {hx(t.user)} {hx(t.user)}")
         if rng.random() < 0.15: h.op(f"inittoken t:{hx(t.label)} {hx(t.so)} {hx(t.label)}")
-        h.op("fini")
+        h.op("fini"); h.op("nop mxstat")
     return h.text()
 
 
@@ -1595,7 +1595,8 @@ def conf_history(seed, rounds=12):
             sep = rng.choice([b"\n", b"\n", b"\r\n", b"\n\n"])
             body = sep.join(lines) + (b"" if rng.random() < 0.2 else b"\n")
         h.op(f"conf {body.hex() or '.'}")
-        h.op("init"); h.op("slots")
+        # with and without locking: a C_Initialize that FAILS (damaged configuration) must not leave mutexes of this flavour behind for the next one
+        h.op(rng.choice(["init", "init", "initix", "initix", "initos"])); h.op("slots")
         s = h.op(f"open t:{hx(t.label)} 6"); h.op(f"login @{s} 1 {hx(t.user)}")
         h.op(f"create @{s} 0={ul(0)} 1={rng.choice(['00', '01'])} 3={hx(h.new_label())} 11=aabb")
         h.op(f"findinit @{s}"); h.op(f"find @{s} 100"); h.op(f"findfinal @{s}")
@@ -1603,7 +1604,7 @@ def conf_history(seed, rounds=12):
         h.op(f"genkey @{s} 1080 161={ul(16)} 3={hx(h.new_label())}")
         h.op(f"mechlist t:{hx(t.label)}"); h.op(f"mechinfo t:{hx(t.label)} 1082")
         if rng.random() < 0.3: h.op(f"inittoken free {hx(t.so)} {hx('other')}")
-        h.op("fini")
+        h.op("fini"); h.op("nop mxstat")
     return h.text()
 
 
